@@ -387,3 +387,79 @@ Definition extend_iter (e : ecfg) (v : vec) (hint : N) (xs : list N) : outcome v
   | Ret v1 =>
       fold_left (fun acc x => match acc with Panic k => Panic k | Ret w => push e w x end) xs (Ret v1)
   end.
+
+(* ---------- splice: Drain over the range, then Splice::drop ---------- *)
+(* Drain::fill: write items into the gap [len, tail_start) while there are any;
+   result: buffer, new vec.len, items left, whether the whole gap was filled *)
+Fixpoint sp_fill (buf : list slot) (len gap : nat) (items : list N) : list slot * nat * list N * bool :=
+  match gap with
+  | O => (buf, len, items, true)
+  | S g => match items with
+           | [] => (buf, len, [], false)
+           | x :: r => sp_fill (set_slot buf len x) (S len) g r
+           end
+  end.
+
+(* Drain::move_tail(extra): buf.reserve(tail_start + tail_len, extra), then memmove the tail up *)
+Definition sp_move_tail (e : ecfg) (buf : list slot) (tail_start tail_len : nat) (extra : N)
+  : outcome (list slot * nat) :=
+  match reserve e (mkVec buf (N.of_nat (tail_start + tail_len))) extra false with
+  | Panic k => Panic k
+  | Ret v1 => Ret (copy_within (v_buf v1) tail_start (tail_start + nn extra) tail_len, (tail_start + nn extra)%nat)
+  end.
+
+(* Drain::drop once the range is exhausted: move the tail back down to vec.len, restore the length *)
+Definition sp_finish (buf : list slot) (len tail_start tail_len : nat) : vec :=
+  if Nat.eqb tail_len 0 then mkVec buf (N.of_nat len)
+  else mkVec (if Nat.eqb tail_start len then buf else copy_within buf tail_start len tail_len)
+             (N.of_nat (len + tail_len)).
+
+Record spliced := mkSpliced { s_vec : vec; s_removed : list N }.
+
+(* the end of Splice::drop: the gap has been filled as far as the items went.  If items are left they
+   are collected (now with an exact count), the tail is moved by that count and the gap filled. *)
+Definition sp_collect (e : ecfg) (tail_len : nat) (removed : list N)
+           (st : list slot * nat * list N * bool * nat) : outcome spliced :=
+  match st with
+  | (buf3, len3, rest3, full3, ts3) =>
+      if negb full3 then Ret (mkSpliced (sp_finish buf3 len3 ts3 tail_len) removed)
+      else match rest3 with
+           | [] => Ret (mkSpliced (sp_finish buf3 len3 ts3 tail_len) removed)
+           | _ :: _ =>
+               match sp_move_tail e buf3 ts3 tail_len (N.of_nat (length rest3)) with
+               | Panic k => Panic k
+               | Ret (buf4, ts4) =>
+                   match sp_fill buf4 len3 (ts4 - len3)%nat rest3 with
+                   | (buf5, len5, _, _) => Ret (mkSpliced (sp_finish buf5 len5 ts4 tail_len) removed)
+                   end
+               end
+           end
+  end.
+
+(* v.splice(range, xs) dropped without taking anything out of it.  hint0 is the lower size hint
+   Extend sees when there is no tail; hint1 the one Splice::drop reads after the first fill.  Both
+   come from the caller's iterator and may be anything. *)
+Definition splice (e : ecfg) (v : vec) (s e0 : bound) (xs : list N) (hint0 hint1 : N) : outcome spliced :=
+  match drain_range v s e0 with
+  | Panic k => Panic k
+  | Ret (a, b) =>
+      let removed := map (fun s => match s with Some x => x | None => 0 end)
+                         (firstn (nn b - nn a)%nat (skipn (nn a) (v_buf v))) in
+      let tail_len := (nn (v_len v) - nn b)%nat in
+      if Nat.eqb tail_len 0 then
+        match extend_iter e (mkVec (v_buf v) a) hint0 xs with
+        | Panic k => Panic k
+        | Ret v' => Ret (mkSpliced v' removed)
+        end
+      else
+        match sp_fill (v_buf v) (nn a) (nn b - nn a)%nat xs with
+        | (buf1, len1, rest1, full1) =>
+            if negb full1 then Ret (mkSpliced (sp_finish buf1 len1 (nn b) tail_len) removed)
+            else if 0 <? hint1 then
+              match sp_move_tail e buf1 (nn b) tail_len hint1 with
+              | Panic k => Panic k
+              | Ret (buf2, ts2) => sp_collect e tail_len removed (sp_fill buf2 len1 (ts2 - len1)%nat rest1, ts2)
+              end
+            else sp_collect e tail_len removed (buf1, len1, rest1, true, nn b)
+        end
+  end.
